@@ -55,7 +55,8 @@ func (h *valueHolder) UnmarshalJSON(b []byte) error {
 var modelledWire = map[string]bool{"set": true, "map": true, "uuid": true, "row": true, "condition": true, "mutation": true, "value": true}
 
 // kinds whose decoder and encoder are modelled in Lean (Model/WireEnc.lean)
-var recodedWire = map[string]bool{"basetype": true, "columntype": true, "columnschema": true, "select": true, "operation": true}
+var recodedWire = map[string]bool{"basetype": true, "columntype": true, "columnschema": true, "select": true, "operation": true,
+	"result": true, "updates": true, "updates2": true, "condsince": true, "monitorreq": true, "schema": true}
 
 // goValJ renders a decoded value in the canonical form shared with the model
 func goValJ(v interface{}) interface{} {
